@@ -148,6 +148,102 @@ def gen_tx(rng):
     return "tx " + " ".join(toks)
 
 
+def gen_sx(rng):
+    """real sidx: write / flush / prepare-merge / prepare-sync / commit / rollback / pin / release"""
+    n = rng.choice([4, 6, 10, 14, 20, 28])
+    parts = []       # [(id, kind)]
+    next_id = 1
+    pending = None   # ("m"|"s", ids)
+    held = set()
+    toks = []
+    for _ in range(n):
+        r = rng.random()
+        if pending is not None:
+            # queries between prepare and commit: every dump queries the table and all held snapshots
+            if r < 0.30:
+                k = rng.randrange(4)
+                toks.append("a%d" % k)
+                if parts:
+                    held.add(k)
+            elif r < 0.40:
+                k = rng.choice(sorted(held)) if held else rng.randrange(4)
+                toks.append("r%d" % k)
+                held.discard(k)
+            elif r < 0.48:
+                toks.append(rng.choice(["w", "fa"]))     # refused: busy
+            elif r < 0.88:
+                toks.append("cm")
+                kind, ids = pending
+                parts = [(i, k) for i, k in parts if i not in ids]
+                if kind == "m":
+                    parts.append((next_id, "f"))
+                    next_id += 1
+                pending = None
+            else:
+                toks.append("rb")
+                if pending[0] == "m":
+                    next_id += 1
+                pending = None
+            continue
+        files = [i for i, k in parts if k == "f"]
+        if r < 0.28 or not parts:
+            toks.append("w")
+            parts.append((next_id, "m"))
+            next_id += 1
+        elif r < 0.43:
+            toks.append("fa")
+            parts = [(i, "f") for i, _ in parts]
+        elif r < 0.70:
+            pool = list(files)
+            rng.shuffle(pool)
+            ids = pool[:rng.choice([1, 2, 2, 3, 4])]
+            if rng.random() < 0.1:
+                ids.append(rng.randrange(1, next_id + 2))
+            toks.append("pm:" + ",".join(map(str, ids)))
+            sel = [i for i in ids if i in files]
+            if sel:
+                pending = ("m", sel)
+        elif r < 0.76:
+            ids = [i for i in files if rng.random() < 0.4]
+            toks.append("ps:" + ",".join(map(str, ids)))
+            if ids:
+                pending = ("s", ids)
+        elif r < 0.90:
+            k = rng.randrange(4)
+            toks.append("a%d" % k)
+            held.add(k)
+        else:
+            k = rng.choice(sorted(held)) if held and rng.random() < 0.8 else rng.randrange(4)
+            toks.append("r%d" % k)
+            held.discard(k)
+    if pending is not None and rng.random() < 0.8:
+        toks.append(rng.choice(["cm", "cm", "rb"]))
+    return "sx " + " ".join(toks)
+
+
+def gen_ss(rng):
+    """real stream write-queue table: flush windows with several mem parts for several segment ids"""
+    toks = []
+    for _ in range(rng.choice([1, 2, 3, 4])):
+        segs = rng.sample([0, 1, 2, 3, 4], rng.choice([1, 2, 2, 3]))
+        window = []
+        for sg in segs:
+            window += [sg] * rng.choice([1, 2, 2, 3])
+        if rng.random() < 0.15:
+            rng.shuffle(window)
+        for sg in window:
+            toks.append("w%d" % sg)
+            if rng.random() < 0.12:
+                toks.append("a%d" % rng.randrange(3))
+        toks.append("ff")
+        if rng.random() < 0.3:
+            toks.append("r%d" % rng.randrange(3))
+    if rng.random() < 0.4:
+        toks.append("c")
+        toks.append("r%d" % rng.randrange(3))
+    return "ss " + " ".join(toks)
+
+
 # ----------------------------------------------------------------------------------------
 # parsing the dumps
 
@@ -409,6 +505,143 @@ def oracle_tx(line, out):
     return None
 
 
+def oracle_sx(line, out):
+    """real sidx. Independent bookkeeping: which batch ordinals were written, which parts hold them, which were
+    removed by a COMMITTED sync. The table's QuerySync must show exactly those, each with both entries, at EVERY step —
+    in particular between prepare and commit of a merge (merged part XOR inputs: never neither, never both) and after a
+    rollback; a query through a held snapshot must never change."""
+    ops = line.split()[1:]
+    if "PANIC" in out or "CRASH" in out or out == "bad-op":
+        return "implementation failed: " + out[:300]
+    if "ERR" in out or "BAD" in out:
+        return "an sidx query failed or returned wrong data: " + out[:300]
+    dumps = out.split(" | ")
+    if len(dumps) != len(ops):
+        return "expected %d dumps, got %d" % (len(ops), len(dumps))
+    expect = {}
+    content = {}          # part name -> {ord}
+    held = {}
+    nbatch = 0
+    pending = None        # ("m"|"s", removed part names)
+    prev_parts = []
+    for i, (op, ds) in enumerate(zip(ops, dumps)):
+        where = "step %d (%s): " % (i, op)
+        f = dict(t.split("=", 1) for t in ds.split() if "=" in t)
+        pfx = [t for t in ds.split() if "=" not in t]
+        try:
+            q = parse_content(f["Q"])
+        except ValueError as e:
+            return where + str(e)
+        parts = parse_list(f["C"]) if f["C"] != "-" else []
+        hl = {}
+        for t in f.get("H", "").split(";"):
+            if t:
+                k, _, rest = t.partition(":")
+                lst, _, hq = rest.rpartition("=")
+                hl[int(k)] = (lst, hq)
+        refused = bool(pfx)
+        if op == "w" and not refused:
+            nbatch += 1
+            expect[nbatch] = 2
+            new = [p for p in parts if p not in prev_parts]
+            if len(new) != 1:
+                return where + "a write must add exactly one part, got %s" % new
+            content[new[0]] = {nbatch}
+        elif op == "fa" and not refused:
+            for p in parts:
+                if p not in content and p.endswith("f") and p[:-1] + "m" in content:
+                    content[p] = content[p[:-1] + "m"]
+        elif op.startswith("pm:") and not refused:
+            ids = [x for x in op[3:].split(",") if x]
+            pending = ("m", [p for p in parts if p.endswith("f") and p[:-1] in ids])
+            if parts != prev_parts:
+                return where + "prepare must not publish anything: %s -> %s" % (prev_parts, parts)
+        elif op.startswith("ps:") and not refused:
+            ids = [x for x in op[3:].split(",") if x]
+            pending = ("s", [p for p in parts if p.endswith("f") and p[:-1] in ids])
+            if parts != prev_parts:
+                return where + "prepare must not publish anything: %s -> %s" % (prev_parts, parts)
+        elif op == "cm" and not refused and pending:
+            kind, removed = pending
+            pending = None
+            gone = [p for p in prev_parts if p not in parts]
+            if sorted(gone) != sorted(removed):
+                return where + "commit removed %s, prepared %s" % (gone, removed)
+            if kind == "m":
+                new = [p for p in parts if p not in prev_parts]
+                if len(new) != 1:
+                    return where + "a merge must publish exactly one new part, got %s" % new
+                content[new[0]] = set().union(*[content.get(p, set()) for p in removed])
+            else:
+                for p in removed:
+                    for o in content.get(p, ()):
+                        expect.pop(o, None)
+        elif op == "rb" and not refused:
+            pending = None
+            if parts != prev_parts:
+                return where + "rollback changed the current part list: %s -> %s" % (prev_parts, parts)
+        if op[0] == "a" and not refused:
+            k = int(op[1:])
+            if k not in hl:
+                return where + "holder %d not shown" % k
+            held[k] = hl[k]
+            if hl[k][1] != f["Q"]:
+                return where + "a freshly pinned snapshot answers %s, the table answers %s" % (hl[k][1], f["Q"])
+        if op[0] == "r" and op[1:].isdigit():
+            held.pop(int(op[1:]), None)
+        if set(hl) != set(held):
+            return where + "holders shown %s, expected %s" % (sorted(hl), sorted(held))
+        for k, v in held.items():
+            if hl[k] != v:
+                return where + "holder %d: pinned view changed from %s to %s" % (k, v, hl[k])
+        if q != expect:
+            state = " (between prepare and commit)" if pending else ""
+            return where + "the index shows %s, expected every written entry exactly once: %s%s" % (q, expect, state)
+        prev_parts = parts
+    return None
+
+
+def oracle_ss(line, out):
+    """real stream table: elements held by the parts of the current snapshot = elements written, each once (a merged
+    part must never be listed together with the mem parts it was built from); held part lists never change"""
+    ops = line.split()[1:]
+    if "PANIC" in out or "CRASH" in out or out == "bad-op":
+        return "implementation failed: " + out[:300]
+    dumps = out.split(" | ")
+    if len(dumps) != len(ops):
+        return "expected %d dumps, got %d" % (len(ops), len(dumps))
+    written = 0
+    held = {}
+    closed = False
+    for i, (op, ds) in enumerate(zip(ops, dumps)):
+        where = "step %d (%s): " % (i, op)
+        f = dict(t.split("=", 1) for t in ds.split() if "=" in t)
+        refused = any("=" not in t for t in ds.split())
+        if op[0] == "w" and not refused:
+            written += 2
+        if op == "c":
+            closed = True
+        hl = {}
+        for t in f.get("H", "").split(";"):
+            if t:
+                k, _, lst = t.partition(":")
+                hl[int(k)] = lst
+        if op[0] == "a" and not refused:
+            held[int(op[1:])] = hl.get(int(op[1:]))
+        if op[0] == "r" and op[1:].isdigit():
+            held.pop(int(op[1:]), None)
+        if hl != held:
+            return where + "held snapshots %s, expected unchanged %s" % (hl, held)
+        if closed:
+            continue
+        if int(f["N"]) != written:
+            return where + "%d elements written but the current snapshot's parts %s hold %s (a merged part listed together with its inputs / a part lost)" % (
+                written, f["C"], f["N"])
+        if op == "ff" and not refused and re.search(r"\d+m\*", f["C"]):
+            return where + "mem parts left after a flusher step: %s" % f["C"]
+    return None
+
+
 class C05(vlib.Spec):
     prop = "C05"
     level = "proof"
@@ -459,11 +692,21 @@ class C05(vlib.Spec):
 
     def cases(self, rng, n):
         out = []
-        for _ in range(n * 4 // 5):
+        for _ in range(n * 58 // 100):
             out.append(gen_ms(rng))
-        while len(out) < n:
+        for _ in range(n * 15 // 100):
             out.append(gen_tx(rng))
+        for _ in range(n * 17 // 100):
+            out.append(gen_sx(rng))
+        while len(out) < n:
+            out.append(gen_ss(rng))
         return out
+
+    def compare(self, line, go_out, lean_out):
+        # real sidx / real stream table: the op-level model abstains (oracle only); ms / tx: string-exact
+        if line.startswith(("sx ", "ss ")):
+            return True
+        return go_out == lean_out
 
     def directed(self, rng, seeds, n):
         return [gen_ms(rng, rng.choice([6, 10, 16, 30])) for _ in range(min(n, 6000))]
@@ -471,9 +714,11 @@ class C05(vlib.Spec):
     def oracle(self, line, g):
         kind = line.split(" ", 1)[0]
         for t in line.split()[1:]:
-            key = "op:" + kind + ":" + (t[0] if kind == "tx" else (t[:2] if t[:2] in ("fa", "f:", "m:", "s:") else t[0]))
+            key = "op:" + kind + ":" + (t[0] if kind == "tx" else (t[:2] if t[:2] in ("fa", "f:", "m:", "s:", "pm", "ps", "cm", "rb", "ff") else t[0]))
             self.hist[key] = self.hist.get(key, 0) + 1
-        msg = oracle_ms(line, g) if kind == "ms" else oracle_tx(line, g)
+        msg = {"ms": oracle_ms, "tx": oracle_tx, "sx": oracle_sx, "ss": oracle_ss}[kind](line, g)
+        if kind == "sx" and msg is None and re.search(r"(pm|ps):[\d,]+ (a\d |r\d )*(cm|rb)", line):
+            self.hist["sx:prepare-then-finalise"] = self.hist.get("sx:prepare-then-finalise", 0) + 1
         if msg is not None:
             return ("violation", msg)
         if kind == "ms":
